@@ -189,9 +189,9 @@ def cast(x, line):
 
 WRONG_KINDS = {
     'float': ['int', 'bool', 'str', 'myfloat', 'int0', 'boolF', 'myfloat0', 'tuple', 'list', 'enummember'],
-    'int': ['bool', 'float', 'myint', 'str', 'boolF', 'float0', 'myint0'],
-    'bool': ['int', 'str', 'int0', 'float0'],
-    'str': ['int', 'float', 'bytes', 'int0', 'bytes0'],
+    'int': ['bool', 'float', 'myint', 'str', 'boolF', 'float0', 'myint0', 'enummember'],
+    'bool': ['int', 'str', 'int0', 'float0', 'enummember'],
+    'str': ['int', 'float', 'bytes', 'int0', 'bytes0', 'enummember', 'list'],
     'enum': ['otherenum', 'membername', 'int', 'int0', 'boolF', 'twinenum', 'memberdesc'],
 }
 
@@ -400,13 +400,25 @@ def build_classes(world):
 def _build_class(fs, enums):
     base = hb_form.InputForm if fs['kind'] == 'inputform' else hb_form.Form
 
+    world_enums = enums
+    uses_local = 'L1' in enums and (any(i_.get('enum') == 'L1' for i_ in fs['inputs']) or
+                                    any(l_.get('enum') == 'L1' for l_ in fs['required'] + fs['optional']))
+
+    def own_enums():
+        # a form that uses the local enumeration builds its own copy of the class, per instance
+        if not uses_local:
+            return world_enums
+        return dict(world_enums, L1=hb_enum.make('L1', {m.name: m.value for m in world_enums['L1']}))
+
     if fs['kind'] == 'inputform':
         def __init__(self, **kwargs):
+            enums = own_enums()
             ins = [_make_input(s, enums) for s in fs['inputs']]
             hb_form.InputForm.__init__(self, type(self), ins, **kwargs)
         ns = {'__init__': __init__}
     else:
         def __init__(self, **kwargs):
+            enums = own_enums()
             ins = [_make_input(s, enums) for s in fs['inputs']]
             req = [_make_field(l, enums) for l in fs['required']]
             opt = [_make_field(l, enums) for l in fs['optional']]
